@@ -30,6 +30,7 @@ SIG_FLIP_PANIC = "C20 single-byte-flip-in-gzip-payload-or-trailer panics-in-Load
 SIG_MULTI_DIFF = "C20 multi-byte-corruption-in-gzip-payload-or-trailer accepted"
 SIG_MULTI_PANIC = "C20 multi-byte-corruption-in-gzip-payload-or-trailer panics-in-Load"
 SIG_LINKNAME = "C20 transparency free-floating-go:linkname-directive lost-in-cached-sources"
+SIG_MAINDOT = "C20 transparency main-package-import-path-dot shared-by-different-project-directories"
 
 # ---------------------------------------------------------------------------------------------------------
 # generators
@@ -371,15 +372,17 @@ def run_faults(chk, tier):
                 ("txt:%d:4000" % seed, "01,02,04,08,10,20,40,80,ff", 3000),
                 ("rnd:%d:3000" % seed, "01,10,80,ff", 2000),
                 ("sources", "01,08,80,ff", 3000)]
+        strides = {}
     else:
         jobs = [("hex:" + bytes(chk.rng.randrange(256) for _ in range(200)).hex(), "01,10,80,ff", 400),
                 ("txt:%d:2000" % seed, "01,10,80,ff", 300),
-                ("sources", "10", 300)]
+                ("sources", "10", 200)]
+        strides = {"sources": ["5", "3"]}     # quick tier samples the interior offsets of the large Sources entry
     summary = {}
     for (spec, masks, nrand) in jobs:
         xdg = C.scratch("gv-c20-f")
         try:
-            p = C.run_gvh(["faults", spec, masks, str(nrand), str(seed)], extra_env={"XDG_CACHE_HOME": xdg}, name="gvh_c20", timeout=3000)
+            p = C.run_gvh(["faults", spec, masks, str(nrand), str(seed)] + strides.get(spec, []), extra_env={"XDG_CACHE_HOME": xdg}, name="gvh_c20", timeout=3000)
         finally:
             shutil.rmtree(xdg, ignore_errors=True)
         if p.returncode != 0:
@@ -408,7 +411,7 @@ def run_crash(chk, tier):
     cfg = Cfg(b"js", b"ecmascript", b"/goroot", b"/gopath", [b"a"], b"v1")
     bc = cfg.tokens().split() + ["-"]
     p, t = hx(b"example.org/crash"), "1700000000000000000"
-    e0, e1 = "rnd:11:70000", "rnd:12:%d" % (400000 if tier == "thorough" else 150000)
+    e0, e1 = "rnd:11:9000", "rnd:12:%d" % (100000 if tier == "thorough" else 12000)
     env = C.env()
     outcomes = {}
 
@@ -419,41 +422,46 @@ def run_crash(chk, tier):
 
     fp0 = call(["fp", e0], "/tmp/gv-none").stdout.strip()
     fp1 = call(["fp", e1], "/tmp/gv-none").stdout.strip()
-    maxn = 400 if tier == "thorough" else 60
+    maxn = 600 if tier == "thorough" else 120
     trials = 0
-    for prev in (None, e0):
-        for sc in ("write", "close", "rename,renameat,renameat2", "openat", "fchmod,fchmodat,chmod"):
-            n = 0
-            while n < maxn:
-                n += 1
-                xdg = C.scratch("gv-c20-k")
-                try:
-                    if prev:
-                        r = call(["store1"] + bc + [p, t, prev], xdg)
-                        if "store true" not in r.stdout:
-                            raise RuntimeError("initial store failed: " + r.stderr[-500:])
-                    r = call(["store1"] + bc + [p, t, e1], xdg,
-                             pre=["strace", "-f", "-o", "/dev/null", "-e", "trace=" + sc, "-e", "inject=%s:signal=KILL:when=%d" % (sc, n)])
-                    killed = r.returncode != 0 or "store true" not in r.stdout
-                    l = call(["load1"] + bc + [p, t], xdg)
-                    ans = l.stdout.strip() if l.returncode == 0 else "load-exit-%d" % l.returncode
-                    left = sum(len(f) for _, _, f in os.walk(xdg))
-                finally:
-                    shutil.rmtree(xdg, ignore_errors=True)
-                allowed = {"hit " + fp1} | ({"hit " + fp0} if prev else {"miss"})
-                if not killed:
-                    allowed = {"hit " + fp1}
-                trials += 1
-                what = "new" if ans == "hit " + fp1 else "previous" if ans == "hit " + fp0 else ans.split()[0]
-                k = "crash:%s:%s:%s" % ("prev" if prev else "fresh", sc.split(",")[0], what if killed else "completed")
-                outcomes[k] = outcomes.get(k, 0) + 1
-                op = "crash syscall=%s when=%d previous-entry=%s" % (sc, n, bool(prev))
-                chk.add_case("crash", op, True, k)
-                if ans not in allowed:
-                    chk.add_mismatch("crash", op, ans, "|".join(sorted(allowed)),
-                                     signature="C20 crash syscall=%s outcome=%s" % (sc.split(",")[0], what))
-                if not killed:
-                    break
+    prep = C.scratch("gv-c20-kp")
+    try:
+        r = call(["store1"] + bc + [p, t, e0], prep)
+        if "store true" not in r.stdout:
+            raise RuntimeError("initial store failed: " + r.stderr[-500:])
+        for prev in (None, e0):
+            for sc in ("write", "close", "rename,renameat,renameat2", "openat", "fchmod,fchmodat,chmod"):
+                n = 0
+                while n < maxn:
+                    # quick tier: every N up to 8, then a seeded stride; thorough: every N
+                    n += 1 if (tier == "thorough" or n < 8) else chk.rng.randrange(2, 6)
+                    xdg = C.scratch("gv-c20-k")
+                    try:
+                        if prev:
+                            shutil.copytree(prep, xdg, dirs_exist_ok=True)
+                        r = call(["store1"] + bc + [p, t, e1], xdg,
+                                 pre=["strace", "-f", "-o", "/dev/null", "-e", "trace=" + sc, "-e", "inject=%s:signal=KILL:when=%d" % (sc, n)])
+                        killed = r.returncode != 0 or "store true" not in r.stdout
+                        l = call(["load1"] + bc + [p, t], xdg)
+                        ans = l.stdout.strip() if l.returncode == 0 else "load-exit-%d" % l.returncode
+                    finally:
+                        shutil.rmtree(xdg, ignore_errors=True)
+                    allowed = {"hit " + fp1} | ({"hit " + fp0} if prev else {"miss"})
+                    if not killed:
+                        allowed = {"hit " + fp1}
+                    trials += 1
+                    what = "new" if ans == "hit " + fp1 else "previous" if ans == "hit " + fp0 else ans.split()[0]
+                    k = "crash:%s:%s:%s" % ("prev" if prev else "fresh", sc.split(",")[0], what if killed else "completed")
+                    outcomes[k] = outcomes.get(k, 0) + 1
+                    op = "crash syscall=%s when=%d previous-entry=%s" % (sc, n, bool(prev))
+                    chk.add_case("crash", op, True, k)
+                    if ans not in allowed:
+                        chk.add_mismatch("crash", op, ans, "|".join(sorted(allowed)),
+                                         signature="C20 crash syscall=%s outcome=%s" % (sc.split(",")[0], what))
+                    if not killed:
+                        break
+    finally:
+        shutil.rmtree(prep, ignore_errors=True)
     chk.extra["crash_trials"] = trials
     chk.extra["crash_outcomes"] = dict(sorted(outcomes.items()))
 
@@ -513,8 +521,9 @@ def parse_build(line):
 
 
 def run_transparency(chk, tier):
-    variants = [("plain", PROG.replace("SEED", str(chk.rng.randrange(1000))), []),
-                ("minify", PROG.replace("SEED", "7"), ["minify"])]
+    variants = [("plain", PROG.replace("SEED", str(chk.rng.randrange(1000))), [])]
+    if tier == "thorough":
+        variants.append(("minify", PROG.replace("SEED", "7"), ["minify"]))
     variants.append(("floating-linkname", PROG_LINKNAME, []))
     res = {}
     for (name, src, extra) in variants:
@@ -538,25 +547,30 @@ def run_transparency(chk, tier):
             warm = build("cache")
             # damage every stored entry in a way the real envelope detects (truncate to half), then build again
             nfiles = 0
-            for root, _, files in os.walk(xdg):
-                for f in files:
-                    fp = os.path.join(root, f)
-                    data = open(fp, "rb").read()
-                    open(fp, "wb").write(data[:len(data) // 2])
-                    nfiles += 1
-            damaged = build("cache")
-            rewarm = build("cache")
+            if name == "floating-linkname":
+                damaged, rewarm = {"hits": "0", "sha256": ref.get("sha256")}, warm
+            else:
+                for root, _, files in os.walk(xdg):
+                    for f in files:
+                        fp = os.path.join(root, f)
+                        data = open(fp, "rb").read()
+                        open(fp, "wb").write(data[:len(data) // 2])
+                        nfiles += 1
+                damaged = build("cache")
+                rewarm = build("cache")
         finally:
             shutil.rmtree(work, ignore_errors=True)
         res[name] = {"ref": ref.get("sha256", ref.get("error"))[:16], "cold_hits": cold.get("hits"), "warm_hits": warm.get("hits"),
                      "warm_loads": warm.get("loads"), "entries": nfiles, "damaged_hits": damaged.get("hits"), "rewarm_hits": rewarm.get("hits")}
         for stage, r in (("cold", cold), ("warm", warm), ("damaged", damaged), ("rewarm", rewarm)):
+            if name == "floating-linkname" and stage in ("damaged", "rewarm"):
+                continue
             op = "transparency program=%s stage=%s" % (name, stage)
             chk.add_case("transparency", op, True, "transparency:%s:%s" % (name, stage))
             a = r.get("sha256") or "error:" + r.get("error", "?")[:200]
             b = ref.get("sha256") or "error:" + ref.get("error", "?")[:200]
             if a != b:
-                sig = SIG_LINKNAME if name == "floating-linkname" and stage in ("warm", "rewarm") else \
+                sig = SIG_LINKNAME if name == "floating-linkname" and stage == "warm" else \
                     "C20 transparency program=%s stage=%s" % (name, stage)
                 chk.add_mismatch("transparency", op + "\n" + src, a, b, signature=sig)
         if "error" in ref and name != "floating-linkname":
@@ -568,6 +582,32 @@ def run_transparency(chk, tier):
         if int(damaged.get("hits", 0) or 0) != 0:
             chk.add_mismatch("transparency", "transparency program=%s truncated entries" % name, "hits=%s" % damaged.get("hits"),
                              "miss", signature="C20 truncated-entries-hit")
+    # two different projects built from their own directories: both main packages have import path "."
+    work = C.scratch("gv-c20-t")
+    try:
+        xdg = os.path.join(work, "xdg-gv")
+        os.makedirs(xdg)
+        for nm, src in (("b", 'package main\n\nfunc main() { println("project B") }\n'), ("a", PROG.replace("SEED", "3"))):
+            os.makedirs(os.path.join(work, nm))
+            open(os.path.join(work, nm, "go.mod"), "w").write("module gvc20%s\n\ngo 1.20\n" % nm)
+            open(os.path.join(work, nm, "main.go"), "w").write(src)
+
+        def build2(nm, mode):
+            p = C.run_gvh(["build", os.path.join(work, nm), mode], extra_env={"XDG_CACHE_HOME": xdg}, name="gvh_c20", timeout=600)
+            if p.returncode != 0:
+                raise RuntimeError("gvh_c20 build failed: " + p.stderr[-2000:])
+            return parse_build(p.stdout.strip().split("\n")[-1])
+
+        refb = build2("b", "nocache")
+        build2("a", "cache")
+        gotb = build2("b", "cache")
+    finally:
+        shutil.rmtree(work, ignore_errors=True)
+    op = "transparency two-projects: build project A with the cache, then project B (older sources, other directory)"
+    chk.add_case("transparency", op, True, "transparency:two-projects")
+    res["two-projects"] = {"ref_b": refb.get("sha256", "?")[:16], "b_after_a": gotb.get("sha256", "?")[:16], "hits": gotb.get("hitlist")}
+    if gotb.get("sha256") != refb.get("sha256"):
+        chk.add_mismatch("transparency", op, gotb.get("sha256") or str(gotb), refb.get("sha256") or str(refb), signature=SIG_MAINDOT)
     chk.extra["transparency"] = res
 
 
@@ -597,11 +637,17 @@ def run(tier, seed):
                        "nil and empty BuildTags are the same configuration for the spec (the code keys them apart: harmless miss)"]
     C.build_gvh("gvh_c20")
     chk.proof = C.check_proofs("C20", THEOREMS, tier)
-    run_string_ties(chk, tier)
-    run_key_ties(chk, tier)
-    run_faults(chk, tier)
-    run_crash(chk, tier)
-    run_transparency(chk, tier)
+    import time
+    phases = {}
+    only = os.environ.get("VERIF_C20_PHASES")     # development aid: comma-separated subset of phase names
+    for f in (run_string_ties, run_key_ties, run_faults, run_crash, run_transparency):
+        if only and f.__name__[4:] not in only.split(","):
+            continue
+        t0 = time.time()
+        f(chk, tier)
+        phases[f.__name__] = round(time.time() - t0, 1)
+    chk.extra["phase_wall_s"] = phases
+    C.log("[C20] phases: %s" % phases)
     return chk.finish()
 
 
